@@ -80,6 +80,26 @@ Theorem T20_oversized_call_unthrottled : forall l t n, l_burst l < n -> 0 < n ->
 Proof. exact oversized_unthrottled. Qed.
 Print Assumptions T20_oversized_call_unthrottled.
 
+(* The statement for the listener as a whole: calls of BOTH directions interleaved in any way on the listener
+   that --read-limit rl / --write-limit wl creates.  For the direction d whose own limit R is positive
+   (Tx = proxy->client under --read-limit, Rx = client->proxy under --write-limit) the bytes of d moved in any
+   window satisfy the bound of T20_bound with B = max(4 MiB, R/64), whatever the other direction's calls and
+   limit are (their return times come from the run of the WHOLE interleaving). *)
+Theorem T20_listener_bound : forall s e d rl wl es conns maxc,
+  let R := limit_of d rl wl in
+  let des := filter (is_dir d) es in
+  s <= e -> 0 < R -> 0 <= maxc <= burst_of R ->
+  (forall x, In x des -> 0 < e_n x <= maxc /\ e_io x <= e_t x /\ In (e_conn x) conns) ->
+  NoDup conns ->
+  sequential (combine des (rets_of d es (run (new_listener rl wl) es))) ->
+  NS * moved s e des <=
+    burst_of R * NS + R * (e - s + 1 + skew (map e_t des)) + NS * (Z.of_nat (length conns) * maxc).
+Proof.
+  exact (listener_bound ob_conn_read_charges_rx ob_conn_write_charges_tx ob_read_limit_feeds_tx
+           ob_write_limit_feeds_rx ob_limit_guard_positive ob_listener_fields_straight).
+Qed.
+Print Assumptions T20_listener_bound.
+
 (* Oracle completeness: the run-time oracle of the limiter cases (the segment inequality evaluated for
    every j <= k on the delays the real rate.Limiter returned) accepts the model's own trace of ANY sequence
    of ReserveN(t, n) calls -- refused (n > burst) and empty (n = 0) requests and backwards time stamps
